@@ -447,7 +447,9 @@ def h_param_top_cv(prog, rng):
                 cands.append((f, k))
     if not cands:
         return None
-    f, k = rng.choice(cands)
+    # parameters declared through a typedef are rare in generated programs: prefer them half of the time
+    tdc = [c for c in cands if isinstance(c[0].ftype.params[c[1]], Typedef)]
+    f, k = rng.choice(tdc if tdc and rng.random() < 0.5 else cands)
     q = prog.clone()
     f2 = [x for x in q.functions if x.name == f.name][0]
     const, volatile = rng.choice([(True, False), (True, False), (False, True), (True, True)])
